@@ -622,6 +622,311 @@ def bpi_sweep(samples):
         yield id3_frame(b"TIT2", b"\0abc") + b"\0" * k
 
 
+# ------------------------------------------------------------------------------------------- DSF
+def dsf_impl(f):
+    """what DSF.load does with the stream before ID3Header is parsed: DSFFile(fileobj), then
+    _DSFID3._pre_load_header (ID3NoHeaderError -> tags = None), then DSFInfo(fmt_chunk)"""
+    from mutagen.dsf import DSFFile, DSFInfo, _DSFID3
+    from mutagen.id3._util import ID3NoHeaderError
+    dsf_file = DSFFile(f)
+    try:
+        _DSFID3()._pre_load_header(f)
+        loc = dsf_file.dsd_chunk.offset_metdata_chunk
+    except ID3NoHeaderError:
+        loc = 0
+    return DSFInfo(dsf_file.fmt_chunk), dsf_file, loc, f.tell()
+
+
+def dsf_length(samples, rate):
+    try:
+        return fh(float(samples) / rate)
+    except ZeroDivisionError:
+        return "ZeroDivisionError"
+
+
+def dsf_canon(r, data):
+    i, ff, loc, pos = r
+    try:
+        length = fh(i.length)
+    except ZeroDivisionError:
+        length = "ZeroDivisionError"          # a property computed on access, not during load
+    return (ff.fmt_chunk.channel_type, i.channels, i.sample_rate, i.bits_per_sample, length, i.bitrate,
+            ff.dsd_chunk.total_size, ff.data_chunk.chunk_size, loc, pos)
+
+
+def dsf_expect(l, data):
+    ctype, ch, rate, bits, samples, total, dsize, loc, pos = l
+    return (ctype, ch, rate, bits, dsf_length(samples, rate), rate * bits * ch, total, dsize, loc, pos)
+
+
+def dsf_file(meta=0, total=None, sizes=(28, 52, 12), version=1, fid=0, ch=2, rate=2822400, bits=1, samples=5644800, magic=(b"DSD ", b"fmt ", b"data"), tail=b""):
+    q = lambda v: struct.pack("<Q", v & (2 ** 64 - 1))
+    body = (magic[1] + q(sizes[1]) + struct.pack("<IIIIII", version, fid, 2, ch, rate, bits) + q(samples) + struct.pack("<II", 4096, 0) +
+            magic[2] + q(sizes[2]) + tail)
+    return magic[0] + q(sizes[0]) + q(92 + len(tail) if total is None else total) + q(meta) + body
+
+
+DSF_BIG = [0, 1, 2, 11, 12, 13, 27, 28, 29, 51, 52, 53, 91, 92, 93, 100, 0xFF, 0x100, 0xFFFF, 2 ** 31 - 1, 2 ** 31, 2 ** 32 - 1, 2 ** 32, 2 ** 62, 2 ** 63 - 1, 2 ** 63, 2 ** 64 - 1]
+
+
+def dsf_sweep(samples):
+    for name in ("with-id3.dsf", "without-id3.dsf", "2822400-1ch-0s-silence.dsf", "5644800-2ch-s01-silence.dsf"):
+        s = samples[name][:140]
+        yield from field_sweep(s, range(0, 92))
+        yield from truncations(s)
+    id3 = b"ID3\x04\x00\x00\x00\x00\x00\x0a" + b"\0" * 10
+    for v in DSF_BIG:
+        yield dsf_file(meta=v, tail=id3)                    # the metadata pointer: 0 = no tag, beyond ssize_t = OverflowError in seek
+        yield dsf_file(total=v)
+        yield dsf_file(samples=v)
+        for k in range(3):
+            sz = [28, 52, 12]
+            sz[k] = v
+            yield dsf_file(sizes=tuple(sz), tail=b"\0" * 16)
+    for v in SWEEP_VALUES:
+        yield dsf_file(version=v) ; yield dsf_file(fid=v) ; yield dsf_file(ch=v) ; yield dsf_file(rate=v) ; yield dsf_file(bits=v)
+    for magic in ((b"DSD\0", b"fmt ", b"data"), (b"DSD ", b"fmt\0", b"data"), (b"DSD ", b"fmt ", b"dat\0"), (b"dsd ", b"fmt ", b"data"), (b"fmt ", b"DSD ", b"data")):
+        yield dsf_file(magic=magic)
+
+
+DSF_SEEDS = [dsf_file(), dsf_file(meta=92, tail=b"ID3\x04\x00\x00\x00\x00\x00\x0a" + b"\0" * 10), dsf_file(rate=0), dsf_file(meta=2 ** 63)]
+
+
+# ------------------------------------------------------------------------------------------- AC3
+def ac3_impl(f):
+    from mutagen.ac3 import AC3Info
+    return AC3Info(f)
+
+
+def ac3_canon(i, data):
+    return (i.codec, i.sample_rate, i.bitrate, i.channels, fh(i.length))
+
+
+def ac3_expect(l, data):
+    codec, rate, bitrate, channels, has_length, nbytes = l
+    return ("ec-3" if codec else "ac-3", rate, bitrate, channels, fh(8.0 * nbytes / bitrate) if has_length else None)
+
+
+def bitpack(fields, pad_to=0):
+    v = n = 0
+    for x, w in fields:
+        v = (v << w) | (x & ((1 << w) - 1))
+        n += w
+    pad = (-n) % 8
+    out = (v << pad).to_bytes((n + pad) // 8, "big")
+    return out + b"\0" * max(0, pad_to - len(out))
+
+
+def ac3_frame(fscod=0, frmsizecod=20, bsid=8, acmod=2, lfe=1, opts=(0, 0, 0), opts2=(0, 0, 0), tc=(0, 0), addbsi=None, pad_to=0, cut=None):
+    f = [(0x0B77, 16), (0, 16), (fscod, 2), (frmsizecod, 6), (bsid, 5), (0, 3), (acmod, 3)]
+    if (acmod & 1) and acmod != 1:
+        f.append((1, 2))
+    if acmod & 4:
+        f.append((1, 2))
+    if acmod == 2:
+        f.append((1, 2))
+    f += [(lfe, 1), (27, 5)]
+    for o, w in zip(opts, (8, 8, 7)):
+        f += [(1, 1), (0x55, w)] if o else [(0, 1)]
+    if acmod == 0:
+        f.append((27, 5))
+        for o, w in zip(opts2, (8, 8, 7)):
+            f += [(1, 1), (0x55, w)] if o else [(0, 1)]
+    f += [(0, 2), (tc[0], 1), (tc[1], 1)]
+    f += [(0x1555, 14)] * (tc[0] + tc[1])
+    if addbsi is None:
+        f.append((0, 1))
+    else:
+        f += [(1, 1), (addbsi, 6)]
+    d = bitpack(f, pad_to)
+    return d if cut is None else d[:cut]
+
+
+def eac3_frame(strmtyp=0, frmsiz=100, fscod=0, code2=0, acmod=2, lfe=1, bsid=16, compre=0, chanmape=0, mixmdate=0, infomdate=0, audprod=(0, 0), blkid=0,
+               addbsi=None, pad_to=0):
+    f = [(0x0B77, 16), (strmtyp, 2), (0, 3), (frmsiz, 11), (fscod, 2), (code2, 2), (acmod, 3), (lfe, 1), (bsid, 5), (27, 5)]
+    f += [(1, 1), (0x55, 8)] if compre else [(0, 1)]
+    if acmod == 0:
+        f += [(27, 5)] + ([(1, 1), (0x55, 8)] if compre else [(0, 1)])
+    if strmtyp == 1:
+        f += [(1, 1), (0xAAAA, 16)] if chanmape else [(0, 1)]
+    f.append((mixmdate, 1))
+    if not mixmdate:
+        f.append((infomdate, 1))
+        if infomdate:
+            f.append((0, 5))
+            if acmod == 2:
+                f.append((5, 4))
+            elif acmod >= 6:
+                f.append((1, 2))
+            f += [(1, 1), (0x55, 8)] if audprod[0] else [(0, 1)]
+            if acmod == 0:
+                f += [(1, 1), (0x55, 8)] if audprod[1] else [(0, 1)]
+            if fscod < 3:
+                f.append((0, 1))
+        numblk = 3 if fscod == 3 else code2
+        if strmtyp == 0 and numblk == 3:
+            f.append((0, 1))
+        if strmtyp == 2 and numblk != 3:
+            f += [(1, 1), (9, 6)] if blkid else [(0, 1)]
+        if addbsi is None:
+            f.append((0, 1))
+        else:
+            f += [(1, 1), (addbsi, 6)]
+    return bitpack(f, pad_to)
+
+
+def ac3_sweep(samples):
+    for name in ("silence-44-s.ac3", "silence-44-s.eac3"):
+        s = samples[name][:200]
+        yield from field_sweep(s, range(0, 24))
+        yield from truncations(s, 60)
+        # every value of every header byte pair that carries the codes (sr code / frame size code / bsid / channel mode)
+        for o in (2, 3, 4, 5, 6, 7):
+            for v in range(256):
+                d = bytearray(s[:64]); d[o] = v
+                yield bytes(d)
+    for bsid in range(0, 32):
+        for acmod in range(8):
+            yield ac3_frame(bsid=bsid, acmod=acmod, pad_to=40)
+            yield eac3_frame(bsid=bsid, acmod=acmod, pad_to=40)
+    for fscod in range(4):
+        for frm in (0, 1, 36, 37, 38, 39, 63):
+            for bsid in (0, 8, 9, 10):
+                yield ac3_frame(fscod, frm, bsid, pad_to=32)
+    for acmod in range(8):
+        for lfe in (0, 1):
+            for opts in ((0, 0, 0), (1, 0, 0), (0, 1, 0), (0, 0, 1), (1, 1, 1)):
+                for tc in ((0, 0), (1, 0), (0, 1), (1, 1)):
+                    for addbsi in (None, 0, 1, 62, 63):
+                        full = ac3_frame(acmod=acmod, lfe=lfe, opts=opts, opts2=opts[::-1], tc=tc, addbsi=addbsi)
+                        yield full                          # ends exactly after the last parsed bit
+                        yield full + b"\0" * 70
+                        if lfe == 0 and tc == (1, 1):
+                            for cut in range(6, len(full)):
+                                yield full[:cut]
+    for strmtyp in range(4):
+        for fscod in range(4):
+            for code2 in range(4):
+                for frmsiz in (0, 1, 2, 3, 100, 2047):
+                    yield eac3_frame(strmtyp, frmsiz, fscod, code2, pad_to=40)
+                for acmod in (0, 1, 2, 6, 7):
+                    for infomdate in (0, 1):
+                        for compre in (0, 1):
+                            for addbsi in (None, 0, 63):
+                                full = eac3_frame(strmtyp, 100, fscod, code2, acmod, 1, 16, compre, compre, 0, infomdate, (compre, 1 - compre), compre, addbsi)
+                                yield full
+                                yield full + b"\0" * 70
+                                if fscod in (0, 3) and code2 == 1 and compre:
+                                    for cut in range(6, len(full)):
+                                        yield full[:cut]
+                    yield eac3_frame(strmtyp, 100, fscod, code2, acmod, mixmdate=1, pad_to=40)
+
+
+AC3_SEEDS = [ac3_frame(pad_to=64), ac3_frame(acmod=0, opts=(1, 1, 1), opts2=(1, 1, 1), tc=(1, 1), addbsi=3, pad_to=64), eac3_frame(pad_to=64),
+             eac3_frame(strmtyp=1, fscod=3, code2=1, acmod=0, compre=1, chanmape=1, infomdate=1, audprod=(1, 1), addbsi=2, pad_to=64)]
+
+
+# ------------------------------------------------------------------------------------------- AIFF
+def aiff_impl(f):
+    """AIFF.load without the ID3 parse: _IFFID3._pre_load_header (ID3NoHeaderError -> tags = None), seek(0, 0), AIFFInfo"""
+    from mutagen.aiff import _IFFID3, AIFFInfo
+    from mutagen.id3._util import ID3NoHeaderError
+    try:
+        _IFFID3()._pre_load_header(f)
+        loc = f.tell()
+    except ID3NoHeaderError:
+        loc = -1
+    f.seek(0, 0)
+    return AIFFInfo(f), loc
+
+
+def aiff_canon(r, data):
+    i, loc = r
+    return (i.channels, i.sample_rate, i.bits_per_sample, i.bitrate, fh(i.length), loc)
+
+
+def aiff_expect(l, data):
+    channels, rate, bits, frames, loc = l
+    return (channels, rate, bits, channels * bits * rate, fh(frames / float(rate) if rate != 0 else 0), loc)
+
+
+def iff_chunk(cid, body, size=None):
+    return cid + struct.pack(">I", (len(body) if size is None else size) & 0xFFFFFFFF) + body + (b"\0" if len(body) % 2 else b"")
+
+
+def ext80(expon, mant, sign=0):
+    return struct.pack(">HQ", (sign << 15) | (expon & 0x7FFF), mant & (2 ** 64 - 1))
+
+
+def aiff_comm(rate=None, channels=2, frames=1000, bits=16, ext=b""):
+    return struct.pack(">hIh", channels, frames, bits) + (ext80(16383 + 15, 44100 << 48) if rate is None else rate) + ext
+
+
+def aiff_form(chunks, size=None, name=b"AIFF", magic=b"FORM"):
+    body = name + b"".join(chunks)
+    return magic + struct.pack(">I", (len(body) if size is None else size) & 0xFFFFFFFF) + body
+
+
+def aiff_sweep(samples):
+    for name in ("with-id3.aif", "8k-1ch-1s-silence.aif", "48k-2ch-s16-silence.aif", "11k-1ch-2s-silence.aif"):
+        s = samples[name][:400]
+        yield from field_sweep(s, range(0, 60))
+        yield from truncations(s, 120)
+    comm = iff_chunk(b"COMM", aiff_comm())
+    id3 = iff_chunk(b"ID3 ", b"ID3\x04\x00\x00\x00\x00\x00\x0a" + b"\0" * 10)
+    ssnd = iff_chunk(b"SSND", b"\0" * 20)
+    yield aiff_form([comm, ssnd, id3])
+    # chunk ids: padding / whitespace that str.rstrip() removes, control and non-ASCII characters, case, the container id itself
+    ids = [b"COMM", b"COM ", b"COMM"[:3] + b"\t", b"ID3 ", b"ID3\0", b"ID3\n", b"ID3\x1c", b"ID3\x1f", b"ID3\x7f", b"ID3\x80", b"ID3\xa0", b"ID3\x85", b"id3 ", b"    ", b"\t\n\r ",
+           b" ID3", b"I D ", b"\x1fD3 ", b"~~~~", b"\x7f   ", b"A\x00  ", b"FORM", b"FOR ", b"AB\x0b\x0c", b"\xffOMM", b"C\xc3\xa9M"]
+    for cid in ids:
+        for where in (0, 1):
+            chunks = [comm, ssnd]
+            chunks.insert(where, iff_chunk(cid, b"ID3\x04\x00\x00\x00\x00\x00\x00" + b"abcdef"))
+            yield aiff_form(chunks + [id3])
+            yield aiff_form(chunks)
+        yield aiff_form([comm], magic=cid)
+        yield aiff_form([iff_chunk(cid, aiff_comm())])
+    # chunk sizes: odd / even, running past the container, past the file, and the container's own size
+    sizes = [0, 1, 2, 3, 4, 5, 7, 8, 17, 18, 19, 26, 27, 28, 100, 0xFFFF, 2 ** 31 - 1, 2 ** 31, 2 ** 32 - 2, 2 ** 32 - 1]
+    for sz in sizes:
+        yield aiff_form([comm, ssnd, id3], size=sz)
+        yield aiff_form([iff_chunk(b"SSND", b"\0" * 21, sz), comm, id3])
+        yield aiff_form([iff_chunk(b"COMM", aiff_comm(ext=b"NONE\0\0"), sz), id3])
+        yield aiff_form([comm, iff_chunk(b"ID3 ", b"ID3\x04\x00\x00\x00\x00\x00\x00", sz)])
+        yield aiff_form([iff_chunk(b"COMM", aiff_comm()[:min(sz, 18)])])
+        # a nested FORM chunk: init_container again (short size: InvalidChunk ends the walk; non-ASCII name: error)
+        yield aiff_form([comm, iff_chunk(b"FORM", b"AIFF" + ssnd, sz), id3])
+        yield aiff_form([iff_chunk(b"FORM", b"AI\xffF" + ssnd, sz), comm])
+    for nm in (b"AIFF", b"AIFC", b"\0\0\0\0", b"AIF\x80", b"\xff\xff\xff\xff", b"AIF"):
+        yield aiff_form([comm, id3], name=nm)
+        yield aiff_form([comm, iff_chunk(b"FORM", nm + ssnd), id3])
+    many = [iff_chunk(b"C%03d" % k, b"x" * (k % 5)) for k in range(40)]
+    yield aiff_form(many + [comm, id3]) ; yield aiff_form(many) ; yield aiff_form([comm] + many + [id3])[:-3]
+    full = aiff_form([ssnd, comm, id3])
+    for k in range(len(full) + 1):
+        yield full[:k]
+    # the 80-bit extended sample rate: exponent lattice, mantissa rounding (53 bits, ties to even), sign, inf/nan, overflow of pow and of the product
+    mants = [0, 1, 2 ** 52, 2 ** 53 - 1, 2 ** 53, 2 ** 53 + 1, 2 ** 54 + 1, 2 ** 54 + 2, 2 ** 54 + 3, 2 ** 63, 2 ** 63 + 2 ** 10, 2 ** 63 + 2 ** 10 + 1, 2 ** 63 + 3 * 2 ** 10,
+             2 ** 63 + 2 ** 11, 2 ** 64 - 2 ** 11, 2 ** 64 - 2 ** 10, 2 ** 64 - 2 ** 10 - 1, 2 ** 64 - 1, 44100 << 48, 0xAC44 << 48 | 0x8000, 0xAC44 << 48 | 0x7FFF]
+    expons = [0, 1, 16383 - 1100, 16383 - 64, 16383 - 1, 16383, 16383 + 1, 16383 + 15, 16383 + 31, 16383 + 52, 16383 + 53, 16383 + 62, 16383 + 63, 16383 + 64, 16383 + 65,
+              16383 + 1022, 16383 + 1023, 16383 + 1024, 16383 + 63 + 959, 16383 + 63 + 960, 16383 + 63 + 961, 16383 + 63 + 1023, 16383 + 63 + 1024, 0x7FFE, 0x7FFF]
+    for m in mants:
+        for e in expons:
+            for sign in (0, 1):
+                yield aiff_form([iff_chunk(b"COMM", aiff_comm(ext80(e, m, sign)))])
+    for ch in (0, 1, -1, 0x7FFF, -0x8000):
+        for bits in (0, 16, -1, 0x7FFF, -0x8000):
+            for frames in (0, 1, 2 ** 32 - 1):
+                yield aiff_form([iff_chunk(b"COMM", aiff_comm(None, ch, frames, bits))])
+
+
+AIFF_SEEDS = [aiff_form([iff_chunk(b"COMM", aiff_comm()), iff_chunk(b"SSND", b"\0" * 40), iff_chunk(b"ID3 ", b"ID3\x04\x00\x00\x00\x00\x00\x0a" + b"\0" * 10)]),
+              aiff_form([iff_chunk(b"SSND", b"\0" * 7), iff_chunk(b"COMM", aiff_comm(ext=b"NONE\x0enot compressed\0"))], name=b"AIFC"),
+              aiff_form([iff_chunk(b"FORM", b"AIFF" + iff_chunk(b"COMM", aiff_comm())), iff_chunk(b"COMM", aiff_comm(ext80(16383 + 12, 8000 << 51)))])]
+
+
 # ------------------------------------------------------------------------------------------- registry
 LOADERS = {
     "Musepack": dict(impl=mpc_impl, canon=mpc_canon, expect=mpc_expect, sweep=mpc_sweep,
@@ -672,4 +977,16 @@ LOADERS = {
     "ID3determine_bpi": dict(impl=bpi_impl, canon=bpi_canon, expect=ogv_expect, sweep=bpi_sweep, coq=("Parse_id3", "id3_determine_bpi", "id3_bpi_list"),
                              own=lambda n: n.endswith(".id3"), seeds=[id3_frame(b"TIT2", b"\0abc") + id3_frame(b"COMM", b"\0eng\0" + b"c" * 140, sync=True) + b"\0" * 20],
                              max_len=2048, mirrors="id3._tags.determine_bpi(data, Frames)"),
+    "AC3": dict(impl=ac3_impl, canon=ac3_canon, expect=ac3_expect, sweep=ac3_sweep, coq=("Parse_ac3", "ac3_load", "ac3_id"), cmd="c04_load_ac3",
+                own=lambda n: n.endswith((".ac3", ".eac3")), seeds=AC3_SEEDS, max_len=512,
+                mirrors="ac3.AC3Info.__init__ (what AC3.load runs): sync word, bitstream_id dispatch, _read_header (BitReaderError mapping), _read_header_normal, "
+                        "_read_header_enhanced, _skip_unused_header_bits_*, _get_channels, _guess_length, over _util.BitReader.bits/skip/align"),
+    "AIFF": dict(impl=aiff_impl, canon=aiff_canon, expect=aiff_expect, sweep=aiff_sweep, coq=("Parse_aiff", "aiff_load", "aiff_id"), cmd="c04_load_aiff",
+                 own=lambda n: n.endswith(".aif"), seeds=AIFF_SEEDS, max_len=1024,
+                 mirrors="aiff.AIFF.load without the ID3 parse: _IFFID3._pre_load_header, AIFFInfo.__init__, read_float, AIFFFile / IffFile.__init__, "
+                         "IffChunk.parse / __init__ / read, AIFFFormChunk.__init__ + init_container, IffContainerChunkMixin.subchunks / __getitem__"),
+    "DSF": dict(impl=dsf_impl, canon=dsf_canon, expect=dsf_expect, sweep=dsf_sweep, coq=("Parse_dsf", "dsf_load", "dsf_id"), cmd="c04_load_dsf",
+                own=lambda n: n.endswith(".dsf"), seeds=DSF_SEEDS, max_len=512,
+                mirrors="dsf.DSF.load up to the ID3 header: DSFFile (DSDChunk, FormatChunk, DataChunk .load), _DSFID3._pre_load_header (seek to the "
+                        "metadata pointer, OverflowError/ValueError mapping), DSFInfo(fmt_chunk)"),
 }
